@@ -357,7 +357,7 @@ def product_order_rule(chk, src):
                 return True
             if tt is list and isinstance(x, list):
                 return True
-            if tt in (int, float, complex) and isinstance(x, Scal):
+            if tt in (int, float, complex) and (isinstance(x, Scal) or (isinstance(x, (int, float, complex)) and not isinstance(x, bool))):
                 return True
         return False
 
